@@ -29,6 +29,9 @@ def run(ctx):
     pagg, pviol = shm.run_proc(ctx, 10 if q else 180)
     ctx.log("proc (SIGKILL/restart of real writer processes, guard off): %s" % pagg)
     viol += pviol
+    # (a) "only complete records (C02)": the generation cycle of KNOWN_FINDINGS.txt holds here as well
+    aviol, aba, _as = shm.run_aba(ctx, b)
+    viol += aviol
     # A client that waits for the service: it retries its attach all through the window in which
     # the file exists but is not usable (a daemon that died while initialising, or one that wiped
     # and has not published yet); once the restarted daemon has repaired the file it must attach.
@@ -75,6 +78,7 @@ def run(ctx):
         "sched": cov,
         "miri": dict(magg, processes_lost=mlost),
         "proc": pagg,
+        "generation_cycle_cases": aba,
         "waiting_client": dict(wstats, states=sorted(left)),
     }
     finish(ctx, coverage, viol, inconclusive, assumptions=["crash points are the hook sites (between every shared-memory or file operation), not every machine instruction",
